@@ -155,7 +155,6 @@ func init() {
 			if ng == 0 {
 				c.Violate(fnKey(cp)+" / gauge-source", cp.Pos(), "isolation no longer reads the in-flight gauge")
 			}
-			loops := loopBlocks(cp)
 			for i, r := range returnsOf(cp) {
 				key := fmt.Sprintf("%s / return#%d", fnKey(cp), i+1)
 				cv, ok := r.Results[0].(*ssa.Const)
@@ -164,17 +163,21 @@ func init() {
 					continue
 				}
 				fs := canonFacts(r.Block())
-				_, inLoop := anyFact(fs, "$idx < builtin len(")
-				inLoop = inLoop || loops[r.Block()]
+				// facts that depend on the rule being looked at (its threshold / metric type): a return under such a fact
+				// belongs to one iteration of the scan, a return under none of them comes after the scan
+				_, perRule := anyFact(fs, ".Threshold")
+				if !perRule {
+					_, perRule = anyFact(fs, ".MetricType")
+				}
 				if constant.BoolVal(cv.Value) {
-					c.Check(!inLoop, key, r.Pos(), "pass is returned only after every rule was visited")
+					c.Check(!perRule, key, r.Pos(), "pass is returned only after every rule was visited (not under a condition on a single rule)")
 				} else {
 					f, ok := anyFact(fs, "CurrentConcurrency()", "batchCount", ".Threshold")
 					if !ok {
 						f, ok = anyFact(fs, "CurrentConcurrency()", "BatchCount", ".Threshold")
 					}
 					rulep := accessPath(r.Results[1])
-					c.Check(ok && inLoop && strings.Contains(rulep, "getRulesOfResource"), key, r.Pos(), "reject inside the loop under %q returning the violated rule %s", f, rulep)
+					c.Check(ok && strings.Contains(rulep, "getRulesOfResource"), key, r.Pos(), "reject under %q returning the violated rule %s", f, rulep)
 				}
 			}
 			nb := 0
@@ -279,10 +282,9 @@ func init() {
 		Doc: "for each MetricType case of doCheckRule the value compared with rule.TriggerCount comes from the table InboundQPS->InboundNode().GetQPS(Pass), Concurrency->InboundNode().CurrentConcurrency(), AvgRT->InboundNode().AvgRT(), Load->system_metric.CurrentLoad(), CpuUsage->system_metric.CurrentCpuUsage(); checkBbrSimple is consulted only under Strategy==BBR and reads concurrency, MinRT and GetMaxAvg(Complete) of the inbound node; every MetricType constant below MetricTypeSize has a case and IsValidSystemRule rejects the others",
 		Run: func(c *Ctx) {
 			f := c.P.Func("core/system.(*AdaptiveSlot).doCheckRule")
-			bbr := c.P.Func("core/system.checkBbrSimple")
 			valid := c.P.Func("core/system.IsValidSystemRule")
-			if f == nil || bbr == nil || valid == nil {
-				c.AnchorLost("system.doCheckRule / checkBbrSimple / IsValidSystemRule")
+			if f == nil || valid == nil {
+				c.AnchorLost("system.doCheckRule / IsValidSystemRule")
 				return
 			}
 			want := map[string][]string{
@@ -362,29 +364,65 @@ func init() {
 					c.Violate(fmt.Sprintf("%s / source %s", fnKey(f), name), f.Pos(), "case %s no longer compares its metric with rule.TriggerCount", name)
 				}
 			}
-			// BBR
+			// BBR: the capacity estimate (minimum RT, peak completion rate, in-flight count of the inbound node) is
+			// consulted only for Strategy==BBR. The estimate's helper is inlined into doCheckRule before analysis.
 			bbrV, _ := constValue(c.P, "core/system.BBR")
+			reads := map[string]bool{}
 			nbbr := 0
-			for _, ci := range c.P.StaticCallers(bbr) {
-				if isTestOrExample(ci.Parent()) {
-					continue
+			bbrFact := fmt.Sprintf("%d == {Rule}.Strategy", bbrV)
+			scopeFns := withNewHelpers([]*ssa.Function{f})
+			var underBBR func(ins ssa.Instruction, d int) bool
+			underBBR = func(ins ssa.Instruction, d int) bool {
+				if canonFacts(ins.Block())[bbrFact] {
+					return true
 				}
-				nbbr++
-				fs := canonFacts(ci.Block())
-				c.Check(fs[fmt.Sprintf("%d == {Rule}.Strategy", bbrV)], fmt.Sprintf("%s / bbr#%d", fnKey(ci.Parent()), nbbr), ci.Pos(), "capacity estimate consulted only for Strategy==BBR")
+				g := ins.Parent()
+				if g == f || d > 2 {
+					return false
+				}
+				// a helper: every call site inside the scope must be under the fact
+				n := 0
+				for _, h := range scopeFns {
+					for _, ci := range callsIn(h) {
+						if isStaticCallTo(ci, g) {
+							n++
+							if !underBBR(ci.(ssa.Instruction), d+1) {
+								return false
+							}
+						}
+					}
+				}
+				return n > 0
 			}
-			var reads []string
-			for _, ci := range callsIn(bbr) {
-				if cal := ci.Common().StaticCallee(); cal != nil && len(ci.Common().Args) > 0 {
-					p := accessPath(ci.(ssa.Value))
-					if strings.Contains(p, "core/stat.InboundNode()") && cal.Name() != "InboundNode" {
-						reads = append(reads, cal.Name()+"("+argConsts(ci)+")")
+			for _, g := range scopeFns {
+				for _, ci := range callsIn(g) {
+					cal := ci.Common().StaticCallee()
+					if cal == nil || len(ci.Common().Args) == 0 {
+						continue
+					}
+					v, isV := ci.(ssa.Value)
+					if !isV || !strings.Contains(accessPath(v), "core/stat.InboundNode()") {
+						continue
+					}
+					switch cal.Name() {
+					case "MinRT", "GetMaxAvg":
+						nbbr++
+						c.Check(underBBR(ci.(ssa.Instruction), 0), fmt.Sprintf("%s / bbr#%d", fnKey(f), nbbr), ci.Pos(), "capacity estimate (%s) consulted only for Strategy==BBR", cal.Name())
+						reads[cal.Name()+"("+argConsts(ci)+")"] = true
+					case "CurrentConcurrency":
+						if underBBR(ci.(ssa.Instruction), 0) {
+							reads[cal.Name()+"("+argConsts(ci)+")"] = true
+						}
 					}
 				}
 			}
-			sort.Strings(reads)
-			got := strings.Join(reads, " ")
-			c.Check(got == "CurrentConcurrency() GetMaxAvg(MetricEventComplete) MinRT()", fnKey(bbr)+" / reads", bbr.Pos(), "BBR estimate reads [%s] of the inbound node (want CurrentConcurrency, GetMaxAvg(Complete), MinRT)", got)
+			var rl []string
+			for k := range reads {
+				rl = append(rl, k)
+			}
+			sort.Strings(rl)
+			got := strings.Join(rl, " ")
+			c.Check(got == "CurrentConcurrency() GetMaxAvg(MetricEventComplete) MinRT()", fnKey(f)+" / bbr-reads", f.Pos(), "BBR estimate reads [%s] of the inbound node (want CurrentConcurrency, GetMaxAvg(Complete), MinRT)", got)
 			// validity
 			okV := false
 			for _, r := range returnsOf(valid) {
@@ -635,24 +673,15 @@ func init() {
 					}
 					n++
 					absent := false
-					for _, ft := range condFacts(mu.Block()) {
-						var lk *ssa.Lookup
-						if ex, ok := ft.Cond.(*ssa.Extract); ok && ex.Index == 1 && !ft.Truth {
-							lk, _ = ex.Tuple.(*ssa.Lookup)
-						} else if b, ok := ft.Cond.(*ssa.BinOp); ok && ((b.Op == token.EQL && ft.Truth) || (b.Op == token.NEQ && !ft.Truth)) && (isNilConst(b.X) || isNilConst(b.Y)) {
-							for _, side := range []ssa.Value{b.X, b.Y} {
-								if l, ok := resolve(side).(*ssa.Lookup); ok {
-									lk = l
-								}
-							}
+					eachInstr(f, func(x ssa.Instruction) {
+						lk, ok := x.(*ssa.Lookup)
+						if !ok {
+							return
 						}
-						if lk == nil {
-							continue
-						}
-						if ld, ok := lk.X.(*ssa.UnOp); ok && ld.X == ssa.Value(g) && accessPath(lk.Index) == accessPath(mu.Key) {
+						if ld, ok := lk.X.(*ssa.UnOp); ok && ld.X == ssa.Value(g) && accessPath(lk.Index) == accessPath(mu.Key) && reachedOnlyIfAbsent(lk, mu) {
 							absent = true
 						}
-					}
+					})
 					c.Check(absent, fmt.Sprintf("%s / store recyclers#%d", fnKey(f), n), mu.Pos(), "a recycler is stored only where recyclers[%s] was found absent", accessPath(mu.Key))
 				})
 			}
